@@ -604,6 +604,22 @@ def run(chk, args):
                    "missing pairs: %s" % missing)
     for name, cfgs in SEVEN.items():
         chk.oblige("placer configuration exercised: " + name, not cases or all(ran.get(cfg, 0) > 0 for cfg in cfgs[:1]))
+    # the level formula of hilbert_chip_order (float log) against the model's integer search, exhaustively
+    if chk.model_ok:
+        try:
+            lv = chk.impl("impl_c02.py", dict(cases=[], levels_upto=4096))["levels"]
+            expr = "forallb (fun p => Nat.eqb (hilbert_levels {| pm_width := fst p; pm_height := 1 + fst p / 3; " \
+                   "pm_res := []; pm_exc := []; pm_dead := [] |}) (snd p)) %s" % vlist(
+                       "(%s, %d%%nat)" % (zlit(n), k) for n, k in lv)
+            ok = chk.coq_eval(HEADER, [expr], name="levels")[0]
+            chk.traces_validated += len(lv)
+            if ok:
+                chk.oblige("corr:hilbert level formula int(ceil(log(max(w,h), 2.0))) = model, max(w,h) in 0..4096", True)
+            else:
+                chk.disagree("hilbert level formula: model and implementation differ for some max(w,h) <= 4096",
+                             dict(levels=lv))
+        except RuntimeError as e:
+            chk.oblige("corr:hilbert level formula", False, str(e))
     # model: correspondence + validator, evaluated in Coq
     if chk.model_ok:
         try:
